@@ -190,6 +190,76 @@ def worker(w, W, payload):
     return agg
 
 
+# ---------------------------------------------------------------- structured roots family
+# page -> a -> b (-> c): a's template is every sequence of <= 3 root items over {element, text, slot x, component b};
+# the page fills slot x with nothing / a component / an element / both; b's template is one of five root shapes.
+# These 7-12 node shapes (a fill handed down from the page into a root-level slot next to further root-level
+# components, component-as-root chains below them) are beyond the node-bounded enumeration.
+def roots_programs():
+    import itertools
+
+    from mc.prog import Program
+    from mc.proggen import label
+
+    T = ("T", None)
+    E = ("El", "div", None, ())
+    # "P": a's slot x handed on (pass-through) inside the fill for the slot of a further root-level component d,
+    # whose own slot sits inside an element: the page-level fill is then rendered during d's deferred render
+    ITEMS = {"E": E, "T": T, "S": ("Slot", "x", "", (), (("Comp", "b", (), False, None),)), "B": ("Comp", "b", (), False, None),
+             "P": ("Comp", "d", (), False, (("Fill", "y", None, None, (("Slot", "x", "", (), ()),)),))}
+    D_TPL = (("El", "div", None, (("Slot", "y", "", (), ()),)),)
+    B_TPLS = [(E,), (E, E), (T, E), (("Comp", "c", (), False, None),), (("El", "div", None, (("Comp", "c", (), False, None),)), ("Comp", "c", (), False, None))]
+    FILLS = [None, (("Comp", "b", (), False, None),), (E,), (("Comp", "b", (), False, None), E), (("Comp", "c", (), False, None), ("Comp", "b", (), False, None))]
+    for n in (1, 2, 3):
+        for seq_ in itertools.product("ETSBP", repeat=n):
+            if "S" not in seq_ and "B" not in seq_ and "P" not in seq_:
+                continue
+            if seq_.count("S") + seq_.count("P") > 1 and n == 3 and "T" in seq_:
+                continue
+            if any(seq_[i] == "T" and seq_[i + 1] == "T" for i in range(len(seq_) - 1)):
+                continue
+            for fill in FILLS:
+                if fill is not None and "S" not in seq_ and "P" not in seq_:
+                    continue
+                for b_tpl in B_TPLS:
+                    a_tpl = tuple(ITEMS[ch] for ch in seq_)
+                    body = None if fill is None else (("Fill", "x", None, None, fill),)
+                    page = (("Comp", "a", (), False, body),)
+                    comps = {"a": make_spec("a", label(a_tpl, "A")), "b": make_spec("b", label(b_tpl, "B")),
+                             "c": make_spec("c", label((E,), "C")), "d": make_spec("d", label(D_TPL, "D"))}
+                    yield Program(label(page, "P"), comps, {})
+
+
+def roots_worker(w, W, payload):
+    (mode,) = payload
+    boot.set_components_setting(context_behavior=mode)
+    h = Harness()
+    agg = par.Agg()
+    for i, prog in enumerate(roots_programs()):
+        if i % W != w:
+            continue
+        agg.states += 1
+        boot.ID_SEAM.reset(agg.states * 64 % 0x40000)
+        h.install(prog)
+        obs = h.render_page(prog)
+        boot.clear_render_registries()
+        agg.transitions += 1
+        if obs[0] != "ok":
+            agg.fail(f"{mode}:roots-family:error:{core_of(prog)}", f"[{mode}] render failed with {obs}", {"mode": mode, "program": prog.to_json(mode), "spec": prog_spec(prog)})
+            continue
+        bad = check_one(prog, mode, obs[1])
+        agg.validated += 1
+        agg.nontrivial += 1
+        agg.expected["elements:%d" % min(obs[1].count("data-n="), 6)] += 1
+        agg.observe(re.sub(r"a[0-9a-f]{5}", "ID", obs[1]))
+        if bad:
+            agg.fail(f"{mode}:roots-family:{bad[0]}:{core_of(prog)}", f"[{mode}] {bad[1]}", {"mode": mode, "program": prog.to_json(mode), "spec": prog_spec(prog)})
+        if agg.states == 12 and w == 3:
+            agg.sample({"mode": mode, "page": prog.page_source(), "components": {n: c.source() for n, c in prog.comps.items()}, "html": obs[1][:400]})
+    h.uninstall()
+    return agg
+
+
 # ---------------------------------------------------------------- depth families
 def depth_task(arg):
     """chain(d): component c_d whose sole root is the component c_{d-1} ... leaf <div>; the leaf
@@ -207,10 +277,22 @@ def depth_task(arg):
     boot.ID_SEAM.reset()
 
     def gcd(self, depth=0):
-        return {"my_id": self.id, "depth": int(depth), "next": int(depth) - 1}
+        return {"my_id": self.id, "depth": int(depth), "next": int(depth) - 1, "one": [1]}
 
-    if kind == "chain":
+    if kind == "reentrant":
+        # the SAME instance renders itself again from within get_context_data (documented: Component.id is the
+        # id of the deepest-most render): every render's echoed id must be the id on that render's own root
+        def gcd(self, depth=0):  # noqa: F811
+            depth = int(depth)
+            inner = self.render(kwargs={"depth": depth - 1}, render_dependencies=False) if depth > 0 else ""
+            return {"my_id": self.id, "depth": depth, "inner": inner}
+
+        tpl = "<div data-n=\"d{{ depth }}\">[r:{{ my_id }}]{{ inner|safe }}</div>"
+    elif kind == "chain":
         tpl = "[r:{{ my_id }}]{% if depth > 0 %}{% component 'c14rec' depth=next / %}{% else %}<div data-n=\"leaf\">x</div>{% endif %}"
+    elif kind == "loopnest":
+        # every level sits inside a {% for %}: the forloop/parentloop chain is as long as the nesting is deep
+        tpl = "[r:{{ my_id }}]<div data-n=\"d{{ depth }}\">{% if depth > 0 %}{% for i in one %}{% component 'c14rec' depth=next / %}{% endfor %}{% endif %}</div>"
     else:
         tpl = "[r:{{ my_id }}]<div data-n=\"d{{ depth }}\">{% if depth > 0 %}{% component 'c14rec' depth=next / %}{% endif %}</div>"
     cls = type("C14Rec", (Component,), {"template": tpl, "get_context_data": gcd, "__module__": "verif_c14"})
@@ -218,7 +300,7 @@ def depth_task(arg):
         registry.unregister("c14rec")
     registry.register("c14rec", cls)
     try:
-        html = Template("{% component 'c14rec' depth=d / %}").render(Context({"d": d}))
+        html = Template("{% component 'c14rec' depth=d / %}").render(Context({"d": d, "one": [1]}))
     except Exception as e:  # noqa
         boot.clear_render_registries()
         registry.unregister("c14rec")
@@ -234,6 +316,11 @@ def depth_task(arg):
     if kind == "chain":
         if len(rp.elems) != 1 or rp.elems[0][1] != frozenset(ids):
             return kind, d, f"leaf element should carry all {d + 1} ids, carries {len(rp.elems[0][1]) if rp.elems else 'no element'}"
+    elif kind == "reentrant":
+        # document order of echoes = outermost first; element d<k> must carry exactly the id echoed inside it
+        want = [("d%d" % (d - i), frozenset([ids[i]])) for i in range(d + 1)]
+        if rp.elems != want:
+            return kind, d, f"reentrant({d}): elements carry {[(n, sorted(x)) for n, x in rp.elems]}, the renders reported Component.id {ids} (outermost first)"
     else:
         want = [("d%d" % (d - i), frozenset([ids[i]])) for i in range(d + 1)]
         if rp.elems != want:
@@ -249,8 +336,17 @@ def run(ctx):
     b = bounds(ctx.tier)
     run_parts(ctx, worker, b["django"], modes=("django",))
     run_parts(ctx, worker, b["isolated"], modes=("isolated",))
+    for mode in ("django", "isolated"):
+        agg = par.run_sharded(roots_worker, (mode,))
+        ev.add_part(f"roots_family_{mode}", states=agg.states, transitions=agg.transitions, validated=agg.validated, nontrivial=agg.nontrivial,
+                    observed_distinct=len(agg.observed), expected=agg.expected, bound={"root_items": "<= 3 over {element, text, slot, component}", "fills": 5, "b_templates": 5},
+                    samples=agg.samples[:1])
+        ctx.fnd.merge_reports(sorted(agg.failures, key=lambda f: (len(f[2]["program"]["page"]), f[0])))
+    boot.set_components_setting(context_behavior="django")
     depths = [1, 2, 3, 5, 10, 50, 200] + ([1000, 2000] if ctx.tier == "thorough" else [])
     tasks = [(k, d) for k in ("chain", "nest") for d in depths]
+    tasks += [("loopnest", d) for d in ([1, 2, 3, 10, 100, 600] + ([1000, 2000] if ctx.tier == "thorough" else []))]
+    tasks += [("reentrant", d) for d in (1, 2, 3, 5)]
     import sys
     sys.setrecursionlimit(max(sys.getrecursionlimit(), 1000))
     res = par.run_tasks(depth_task, tasks)
